@@ -262,4 +262,24 @@ func NewCmdUtils$1 returns (err)
     invariant @empty-name forall j int :: {result[j]} 0 <= j && j < #i && fileNames[j] == "" ==> RdN(payload(result[j])) == 0 && !RdFailed(payload(result[j]))
   }
   ghost before dyncall 1 { assert @empty-name-empty-input [C16] forall j int :: {result[j]} 0 <= j && j < len(fileNames) && fileNames[j] == "" ==> RdN(payload(result[j])) == 0 && !RdFailed(payload(result[j])) }
+
+// ---------------------------------------------------------------------------------------------
+// WithOptions: fresh default options, loaded from the context (C16), handed to the callback; the output is still
+// the standard output file (Load does not touch it), so the commands' precondition on the sink holds at its source.
+// ---------------------------------------------------------------------------------------------
+type utils.OptionsCb(o) returns (err)
+  requires @loaded o != nil && o.ReporterConfig.Output != nil && typeis(o.ReporterConfig.Output, "*os.File")
+  modifies *
+  modifies ghost(cbLen, cbErr, cbNode, cbStop, cbRet, cbLineNo, cbLine, cbHeader, cbElems, cbNElems, scRd, scPos, privLo, evOf, accKey, accP, accN, accH, bufSink, bufSticky, sinkFailed, sinkPend, prLen, prSink, prArg, prArgs, csvLen, csvW, csvN, csvRow, tnodes, tdepth, tmax, tmapOf, jlen, tvLen, tv, tseg, tvSet, procLen, procTime, procSrc, lastOpen, cfgRd)
+
+func NewCmdUtils$2 returns (err)
+  props C16 C17 C08
+  funcparam cb utils.OptionsCb
+  requires @cb cb != nil && c != nil
+  requires @global-flags CtxDef(c, "config") != 0 && CtxDef(c, "database") != 0 && CtxDef(c, "logfile") != 0 && CtxDef(c, "date-format") != 0 && CtxDef(c, "today") != 0 && CtxDef(c, "maxdepth") != 0
+  requires @own-flags CtxDef(c, "single-food") != 0 && CtxDef(c, "group-food") != 0 && CtxDef(c, "single-element") != 0
+  requires @lineage-flags forall j int :: {LineageAt(c, j)} 0 <= j && j < LineageLen(c) ==> CtxDef(LineageAt(c, j), "csv") != 0 && CtxDef(LineageAt(c, j), "no-color") != 0 && CtxDef(LineageAt(c, j), "collapse-last") != 0 && CtxDef(LineageAt(c, j), "collapse") != 0 && CtxDef(LineageAt(c, j), "no-totals") != 0 && CtxDef(LineageAt(c, j), "totals-only") != 0 && CtxDef(LineageAt(c, j), "shorten") != 0 && CtxDef(LineageAt(c, j), "use-old-reg-reporter") != 0 && CtxDef(LineageAt(c, j), "internal-template-name") != 0 && CtxDef(LineageAt(c, j), "begin") != 0 && CtxDef(LineageAt(c, j), "end") != 0
+  requires @documented-defaults FlagDefault("database") == "food.yaml" && FlagDefault("logfile") == "log.yaml" && FlagDefault("date-format") == "2006/01/02" && IntOfStr(FlagDefault("maxdepth")) == 10
+  modifies *
+  modifies ghost(cbLen, cbErr, cbNode, cbStop, cbRet, cbLineNo, cbLine, cbHeader, cbElems, cbNElems, scRd, scPos, privLo, evOf, accKey, accP, accN, accH, bufSink, bufSticky, sinkFailed, sinkPend, prLen, prSink, prArg, prArgs, csvLen, csvW, csvN, csvRow, tnodes, tdepth, tmax, tmapOf, jlen, tvLen, tv, tseg, tvSet, procLen, procTime, procSrc, lastOpen, cfgRd)
 @*/
